@@ -12,6 +12,11 @@ Decided structural clauses:
  D7 cached interval moments: zeroth and first moment use different caches, each keyed by the full interval (x1, x2); the value
     stored is the one computed for that interval; the zeroth moment is cdf(x2) - cdf(x1), the first the integral of x*pdf(x) over
     (x1, x2)
+ D8 per-dimension distribution closures: a function or lambda defined inside a loop and kept beyond the iteration (stored /
+    appended / passed to a constructor) does not read a loop-variant local as a free variable (Python closures bind late: every
+    dimension would use the parameters of the last one)
+ D9 nodes, weights and model evaluations are refreshed together: the sequences that the moment computation pairs index by index
+    are all stored on every path of every method that stores one of them
 Not decided: sum == 1 with boundary, agreement with the unweighted rule, equal-probability split, affine covariance."""
 import ast
 
@@ -341,6 +346,9 @@ def run(prog, ctx):
 
     # ------------------------------------------------------------------ D7
     check_moment_caches(prog, ctx)
+    # ------------------------------------------------------------------ D8, D9
+    check_loop_closures(prog, ctx)
+    check_parallel_refresh(prog, ctx)
 
     # ------------------------------------------------------------------ D6
     gmw = prog.func(GW + ".get_middle_weighted")
@@ -462,3 +470,124 @@ def check_moment_caches(prog, ctx):
     ctx.check(len(set(slots.values())) == 2, "C15.D7", UD + "::separate-caches", prog.func(UD + ".get_zeroth_moment").loc(),
               "zeroth and first moments are cached separately (slots %s)" % slots,
               "zeroth and first moment share a cache slot %s: one is returned in place of the other" % slots)
+
+
+def _free_names(fn):
+    """Names a nested def / lambda reads that are neither its parameters (defaults are evaluated at definition) nor assigned in it."""
+    a = fn.args
+    params = {x.arg for x in a.posonlyargs + a.args + a.kwonlyargs}
+    if a.vararg:
+        params.add(a.vararg.arg)
+    if a.kwarg:
+        params.add(a.kwarg.arg)
+    body = fn.body if isinstance(fn.body, list) else [fn.body]
+    stored, loaded = set(), set()
+    for st in body:
+        for n in ast.walk(st):
+            if isinstance(n, ast.Name):
+                (stored if isinstance(n.ctx, (ast.Store, ast.Del)) else loaded).add(n.id)
+            elif isinstance(n, ast.comprehension):
+                for t in ast.walk(n.target):
+                    if isinstance(t, ast.Name):
+                        stored.add(t.id)
+    return loaded - params - stored
+
+
+def check_loop_closures(prog, ctx):
+    uq = prog.cls(UQ)
+    n = 0
+    for fi in list(uq.methods.values()) + list(prog.cls(GW).methods.values()) + list(prog.cls("GridOperation.UQDistribution").methods.values()):
+        loops = [l for l in walk_local(fi.node) if isinstance(l, (ast.For, ast.While))]
+        for loop in loops:
+            variant = set()
+            for x in ast.walk(loop):
+                if isinstance(x, ast.Name) and isinstance(x.ctx, ast.Store):
+                    variant.add(x.id)
+            for st in ast.walk(loop):
+                if st is loop or not isinstance(st, (ast.FunctionDef, ast.Lambda)):
+                    continue
+                # innermost enclosing loop only
+                if any(st in list(ast.walk(inner)) for inner in loops if inner is not loop and inner in list(ast.walk(loop))):
+                    continue
+                late = sorted(_free_names(st) & variant)
+                name = st.name if isinstance(st, ast.FunctionDef) else None
+                # does the closure outlive the iteration?  (stored / appended / handed to a constructor or call inside a statement that
+                # writes through an attribute, subscript, or a mutator call)
+                escapes = False
+                for holder in ast.walk(loop):
+                    if not isinstance(holder, (ast.Assign, ast.AugAssign, ast.Expr, ast.Return)):
+                        continue
+                    inside = any((isinstance(x, ast.Name) and name is not None and x.id == name and isinstance(x.ctx, ast.Load)) or x is st
+                                 for x in ast.walk(holder))
+                    if not inside:
+                        continue
+                    if isinstance(holder, ast.Return):
+                        escapes = True
+                    if isinstance(holder, (ast.Assign, ast.AugAssign)):
+                        tg = holder.targets if isinstance(holder, ast.Assign) else [holder.target]
+                        if any(isinstance(t, (ast.Attribute, ast.Subscript)) for t in tg):
+                            escapes = True
+                        if any(isinstance(t, ast.Name) for t in tg) and name is not None and isinstance(holder, ast.Assign):
+                            escapes = escapes or False
+                    for c in ast.walk(holder):
+                        if isinstance(c, ast.Call) and isinstance(c.func, ast.Attribute) and c.func.attr in ("append", "extend", "insert", "add", "update", "setdefault", "__setitem__"):
+                            escapes = True
+                if not escapes:
+                    continue
+                n += 1
+                label = name or "lambda@%d" % st.lineno
+                ctx.check(not late, "C15.D8", R.key_of(fi, "closure-binds-early:%s#%d" % (label, n)), fi.loc(st),
+                          "closure kept beyond the loop iteration reads no loop-variant local (parameters are bound by default arguments)",
+                          "`%s` is defined inside a loop, kept beyond the iteration, and reads the loop-variant local(s) %s as free variables: "
+                          "closures bind late, so after the loop every dimension's function uses the values of the last iteration" % (label, late))
+    ctx.note("C15.D8", "%s::closures-in-loops" % UQ, "sparseSpACE/GridOperation.py", "%d closure(s) defined in loops and kept beyond the iteration were analysed" % n)
+
+
+def check_parallel_refresh(prog, ctx):
+    uq = prog.cls(UQ)
+    # the parallel group: attributes of self indexed by one and the same bound variable in one comprehension / loop of calculate_moment
+    cm = uq.methods.get("calculate_moment")
+    if cm is None:
+        raise AnalysisError("anchor vanished: UncertaintyQuantification.calculate_moment")
+    ctx.touch(cm)
+    group = set()
+    for comp in [x for x in ast.walk(cm.node) if isinstance(x, (ast.ListComp, ast.GeneratorExp, ast.For))]:
+        tgt = comp.generators[0].target if not isinstance(comp, ast.For) else comp.target
+        if not isinstance(tgt, ast.Name):
+            continue
+        attrs = set()
+        for x in ast.walk(comp):
+            if isinstance(x, ast.Subscript) and isinstance(x.slice, ast.Name) and x.slice.id == tgt.id:
+                a = R.self_attr(x.value, cm.self_name)
+                if a:
+                    attrs.add(a)
+        if len(attrs) >= 2:
+            group |= attrs
+    ctx.floor("C15.D9", len(group), 2, "attributes paired index by index in calculate_moment")
+    n = 0
+    for fi in uq.methods.values():
+        if fi.name == "__init__":
+            continue
+        stores = [s for s in R.self_stores(fi) if s.attr in group]
+        if not stores:
+            continue
+        ctx.touch(fi)
+        c = cfg_of(fi)
+        stored = {}
+        for s in stores:
+            stored.setdefault(s.attr, []).append(R.cfg_node(fi, s.stmt))
+        first = min((nd for nds in stored.values() for nd in nds), key=lambda nd: nd.idx)
+        n += 1
+        problems = []
+        for a in sorted(group):
+            if a not in stored:
+                problems.append("self.%s is not stored at all" % a)
+                continue
+            # every path from the function entry to the exit passes a store of `a`
+            if not c.must_pass_through(c.entry, [c.exit], stored[a]):
+                problems.append("a path through %s stores %s but leaves self.%s as it was (stale values are paired index by index with the new ones)"
+                                % (fi.name, sorted(set(stored) - {a}), a))
+        ctx.check(not problems, "C15.D9", R.key_of(fi, "refreshed-together"), fi.loc(first.ast),
+                  "%s are all stored on every path" % sorted(group),
+                  "; ".join(problems))
+    ctx.floor("C15.D9.sites", n, 1, "methods storing the paired sequences")
